@@ -14,6 +14,15 @@ static int g_live = 0;
 static int g_ctor = 0;
 static int g_dtor = 0;
 static int g_bad = 0;
+// Throw-point watch (exceptions are not representable in the lowered code): while g_watch_obj is set, every Tracked
+// constructor that runs INSIDE that object's storage samples *g_watch_index; g_ctor_while_indexed counts the
+// constructions that started while the watched container still named an alternative.  A constructor that throws
+// leaves the container exactly in the state it had when the constructor was entered, so "index == -1 at every
+// element construction" is what makes a throwing element constructor leave a valid (empty) container.
+static const void* g_watch_obj = nullptr;
+static unsigned long g_watch_size = 0;
+static const int* g_watch_index = nullptr;
+static int g_ctor_while_indexed = 0;
 
 constexpr int kAlive = 0x5a5a;
 constexpr int kDead = 0x0dead;
@@ -23,15 +32,15 @@ struct Tracked {
   int value;
   int alive;
 
-  Tracked() : value(0), alive(kAlive) { Born(); }
-  Tracked(int v) : value(v), alive(kAlive) { Born(); }
+  Tracked() : value(0), alive(kAlive) { Born(this); }
+  Tracked(int v) : value(v), alive(kAlive) { Born(this); }
   Tracked(const Tracked& o) : value(o.value), alive(kAlive) {
     if (o.alive != kAlive) g_bad += 1;
-    Born();
+    Born(this);
   }
   Tracked(Tracked&& o) : value(o.value), alive(kAlive) {
     if (o.alive != kAlive) g_bad += 1;
-    Born();
+    Born(this);
   }
   Tracked& operator=(const Tracked& o) {
     if (alive != kAlive || o.alive != kAlive) g_bad += 1;
@@ -53,9 +62,10 @@ struct Tracked {
   bool operator!=(const Tracked& o) const { return value != o.value; }
 
  private:
-  static void Born() {
+  static void Born(const void* self) {
     g_live += 1;
     g_ctor += 1;
+    if (g_watch_obj != nullptr && vt_within(self, g_watch_obj, g_watch_size) && *g_watch_index != -1) g_ctor_while_indexed += 1;
   }
 };
 
@@ -64,6 +74,10 @@ inline void ghost_reset() {
   g_ctor = 0;
   g_dtor = 0;
   g_bad = 0;
+  g_watch_obj = nullptr;
+  g_watch_index = nullptr;
+  g_watch_size = 0;
+  g_ctor_while_indexed = 0;
 }
 
 }  // namespace vt
